@@ -101,7 +101,13 @@ Definition version_like (n : str) : bool :=
   str_eqb n (of_string "python_version") || str_eqb n (of_string "python_full_version") || str_eqb n (of_string "platform_release")
   || str_eqb n (of_string "implementation_version").
 (* _is_reversed_containment: '"lit" in name' / '"lit" not in name' *)
-Definition rev_in (a : atom) : bool := a_rev a && (mop_eqb (a_op a) MIn || mop_eqb (a_op a) MNotIn).
+(* ... and '"lit" < name' / '"lit" > name' on a version-valued variable when the literal is a pre/post/dev release
+   (Version(lit).is_prerelease or .is_postrelease; for the valid version texts in play: the text contains a letter) *)
+Definition is_letter (c : N) : bool := ((65 <=? c) && (c <=? 90)) || ((97 <=? c) && (c <=? 122)).
+Definition suffixed (s : str) : bool := existsb is_letter s.
+Definition rev_in (a : atom) : bool :=
+  a_rev a && ((mop_eqb (a_op a) MIn || mop_eqb (a_op a) MNotIn)
+              || ((mop_eqb (a_op a) MLt || mop_eqb (a_op a) MGt) && version_like (a_name a) && suffixed (a_value a))).
 Definition rev_in_m (m : marker) : bool := match m with MAtom a => rev_in a | _ => false end.
 Definition pyver_pair (a b : str) : bool :=
   (str_eqb a (of_string "python_version") && str_eqb b (of_string "python_full_version"))
